@@ -5,6 +5,7 @@
 
 #include <etl/_algorithm/move_backward.hpp>
 #include <etl/_functional/less.hpp>
+#include <etl/_iterator/next.hpp>
 #include <etl/_utility/move.hpp>
 
 namespace etl {
@@ -29,7 +30,7 @@ constexpr auto inplace_merge(BidirIt begin, BidirIt mid, BidirIt end, Compare co
     while (left != mid and right != end) {
         if (comp(*right, *left)) {
             auto value = etl::move(*right);
-            etl::move_backward(left, mid, mid + 1);
+            etl::move_backward(left, mid, etl::next(mid));
             *left = etl::move(value);
             ++right;
             ++mid;
